@@ -4,6 +4,10 @@
 //
 //	even cases: 24 `norm <dst> <src>` ops (AppendValidStringValue / ForceValidStringValueBytes / ForceValidStringValue /
 //	            ValidStringValue(Bytes) on the same bytes); odd cases: 40 `raw <bytes>` ops (both raw parsers)
+//	lengths:    the property quantifies over ALL byte strings, so no input length is special: besides the short
+//	            structured classes every class of material (whitespace, zeros, malformed UTF-8, multi-byte runes,
+//	            non-printables, plain text) also comes as runs whose length is drawn log-uniformly from 1..8192 bytes
+//	            (thorough: one in 16 from 1..65536), placed before / between / after ordinary content
 //	-mode=gen   prints lean/SH/Gen/C11.lean: MaxStringLen as compiled + unicode.IsSpace / unicode.IsPrint of the
 //	            toolchain in use, as maximal runs over 0..0x10FFFF
 package main
@@ -12,6 +16,7 @@ import (
 	"bytes"
 	"fmt"
 	"math/big"
+	"math/bits"
 	"strings"
 	"unicode"
 	"unicode/utf8"
@@ -52,8 +57,139 @@ func word(r *verifx.Rng, b []byte, n int) []byte {
 	return b
 }
 
-// genNorm returns the source bytes and a tag describing the generator used
-func genNorm(r *verifx.Rng) ([]byte, string) {
+// ---- length-adversarial material (shared by both halves)
+
+// logLen draws a length log-uniformly from 1..max: every power-of-two bucket [2^b, 2^(b+1)) is equally likely
+func logLen(r *verifx.Rng, max int) int {
+	b := r.Intn(bits.Len(uint(max)))
+	lo := 1 << b
+	hi := 2*lo - 1
+	if hi > max {
+		hi = max
+	}
+	return r.Range(lo, hi)
+}
+
+// maxRun: several KB in every tier, a few runs of up to 64 KB in the thorough tier
+func maxRun(r *verifx.Rng) int {
+	if h.Tier == "thorough" && r.Chance(1, 16) {
+		return 65536
+	}
+	return 8192
+}
+
+func lenBucket(n int) string { return fmt.Sprintf("2^%02d", bits.Len(uint(n))) }
+
+// x renders bytes for oracle messages: in full when short, head … tail otherwise (the `>` line of the case has them all)
+func x(b []byte) string {
+	if len(b) <= 160 {
+		return verifx.Hex(b)
+	}
+	return fmt.Sprintf("%x…(%d bytes)…%x", b[:48], len(b), b[len(b)-48:])
+}
+
+var longKinds = []string{"ws-space", "ws-ascii", "ws-unicode", "ws-mixed", "bad", "multibyte", "nonprint", "ascii"}
+
+func isWsKind(k string) bool { return strings.HasPrefix(k, "ws-") }
+
+// appendRun appends whole elements of one kind of material until about n bytes are added (at least one element);
+// one time in three the run repeats a single element
+func appendRun(r *verifx.Rng, b []byte, kind string, n int) []byte {
+	end := len(b) + n
+	same := r.Chance(1, 3)
+	var tmp [8]byte
+	var e []byte
+	for len(b) < end {
+		if !same || e == nil {
+			switch kind {
+			case "ws-space":
+				e = append(tmp[:0], ' ')
+			case "ws-ascii":
+				e = append(tmp[:0], asciiSpaces[r.Intn(len(asciiSpaces))])
+			case "ws-unicode":
+				e = utf8.AppendRune(tmp[:0], uniSpaces[r.Intn(len(uniSpaces))])
+			case "ws-mixed":
+				if r.Bool() {
+					e = append(tmp[:0], asciiSpaces[r.Intn(len(asciiSpaces))])
+				} else {
+					e = utf8.AppendRune(tmp[:0], uniSpaces[r.Intn(len(uniSpaces))])
+				}
+			case "bad":
+				if r.Chance(3, 5) {
+					e = append(tmp[:0], badSeqs[r.Intn(len(badSeqs))]...)
+				} else {
+					e = append(tmp[:0], byte(r.Range(0x80, 0xFF)))
+				}
+			case "multibyte":
+				if r.Chance(2, 3) {
+					e = utf8.AppendRune(tmp[:0], printable[5+r.Intn(len(printable)-5)])
+				} else {
+					e = utf8.AppendRune(tmp[:0], rune(r.Range(0x80, 0x2FFF)))
+				}
+			case "nonprint":
+				e = utf8.AppendRune(tmp[:0], nonPrint[r.Intn(len(nonPrint))])
+			default:
+				e = append(tmp[:0], byte(r.Range(0x21, 0x7e)))
+			}
+		}
+		b = append(b, e...)
+	}
+	return b
+}
+
+// genLong: [content] run [content] [run [content]] with run lengths from logLen. alt (nil when there is no
+// whitespace run) is the same input with every whitespace run replaced by ONE ASCII space: normalisation drops
+// leading whitespace and collapses runs, so both must be forced into the same value however long the runs are.
+func genLong(r *verifx.Rng) (src []byte, kind string, alt []byte) {
+	content := func(p, q int) []byte {
+		if !r.Chance(p, q) {
+			return nil
+		}
+		c, _ := genBase(r)
+		return c
+	}
+	c0 := content(1, 2)
+	src = append(src, c0...)
+	alt = append(alt, c0...)
+	ws := false
+	for i, n := 0, r.Range(1, 2); i < n; i++ {
+		k := longKinds[r.Intn(len(longKinds))]
+		if i == 0 {
+			kind = "long-" + k
+			if len(c0) == 0 && isWsKind(k) {
+				h.Stat("norm.long.leadingWhitespaceRun", 1)
+			}
+		}
+		at := len(src)
+		src = appendRun(r, src, k, logLen(r, maxRun(r)))
+		if isWsKind(k) {
+			ws = true
+			alt = append(alt, ' ')
+		} else {
+			alt = append(alt, src[at:]...)
+		}
+		c := content(3, 4)
+		src = append(src, c...)
+		alt = append(alt, c...)
+	}
+	if !ws {
+		alt = nil
+	}
+	return src, kind, alt
+}
+
+// genNorm returns the source bytes, a tag describing the generator used and, for inputs with long whitespace runs,
+// the equivalent input with single spaces (see genLong)
+func genNorm(r *verifx.Rng) ([]byte, string, []byte) {
+	if r.Chance(1, 14) {
+		return genLong(r)
+	}
+	b, kind := genBase(r)
+	return b, kind, nil
+}
+
+// genBase: the short structured classes
+func genBase(r *verifx.Rng) ([]byte, string) {
 	var b []byte
 	switch r.Pick(3, 3, 4, 4, 4, 2, 2, 2, 3) {
 	case 0: // clean ASCII words, single spaces: fast path
@@ -205,7 +341,7 @@ func specValid(b []byte) bool {
 func clone(b []byte) []byte { return append(make([]byte, 0, len(b)+8), b...) }
 
 func doNorm(r *verifx.Rng) bool {
-	src, kind := genNorm(r)
+	src, kind, alt := genNorm(r)
 	var dst []byte
 	if r.Chance(1, 4) {
 		dst = []byte("pre ")[:r.Range(1, 4)]
@@ -222,6 +358,7 @@ func doNorm(r *verifx.Rng) bool {
 	h.Op("norm %s %s", verifx.Hex(dst), verifx.Hex(src))
 	h.Obs("st=%s fb=%s fs=%s v=%d%d", sts, verifx.Hex(fb), verifx.Hex([]byte(fs)), b2i(v), b2i(v2))
 	h.Stat("norm.kind."+kind, 1)
+	h.Stat("norm.len."+lenBucket(len(src)), 1)
 	doInPlace(r, src, fb)
 	slow := !(len(src) == 0 || (v && isASCII(src)))
 	if slow {
@@ -241,28 +378,39 @@ func doNorm(r *verifx.Rng) bool {
 	}
 	// ---- direct oracle (standard library only, no model)
 	if !specValid(fb) {
-		h.Viol("force-output-invalid", "ForceValidStringValueBytes(%x) = %x is not a valid tag value", src, fb)
+		h.Viol("force-output-invalid", "ForceValidStringValueBytes(%s) = %x is not a valid tag value", x(src), fb)
 	}
 	if !format.ValidStringValueBytes(fb) {
-		h.Viol("force-output-rejected", "ValidStringValueBytes(ForceValidStringValueBytes(%x) = %x) is false", src, fb)
+		h.Viol("force-output-rejected", "ValidStringValueBytes(ForceValidStringValueBytes(%s) = %x) is false", x(src), fb)
 	}
 	if v != specValid(src) || v2 != v {
-		h.Viol("valid-disagrees-with-spec", "ValidStringValue(%x) = %v/%v, definition says %v", src, v, v2, specValid(src))
+		h.Viol("valid-disagrees-with-spec", "ValidStringValue(%s) = %v/%v, definition says %v", x(src), v, v2, specValid(src))
 	}
 	if specValid(src) && !bytes.Equal(fb, src) {
 		h.Viol("force-changes-valid", "valid %x forced into %x", src, fb)
 	}
 	if again := format.ForceValidStringValueBytes(clone(fb)); !bytes.Equal(again, fb) {
-		h.Viol("force-not-idempotent", "%x -> %x -> %x", src, fb, again)
+		h.Viol("force-not-idempotent", "%s -> %x -> %x", x(src), fb, again)
 	}
 	if fs != string(fb) {
-		h.Viol("force-string-differs", "ForceValidStringValue(%x) = %x, Bytes version %x", src, fs, fb)
+		h.Viol("force-string-differs", "ForceValidStringValue(%s) = %x, Bytes version %x", x(src), fs, fb)
 	}
 	if err != nil && utf8.Valid(src) {
-		h.Viol("strict-fails-on-valid-utf8", "AppendValidStringValue(%x) failed: %v", src, err)
+		h.Viol("strict-fails-on-valid-utf8", "AppendValidStringValue(%s) failed: %v", x(src), err)
 	}
 	if err == nil && !bytes.Equal(st, append(clone(dst), fb...)) {
-		h.Viol("strict-differs-from-force", "AppendValidStringValue(%x, %x) = %x, forced %x", dst, src, st, fb)
+		h.Viol("strict-differs-from-force", "AppendValidStringValue(%x, %s) = %x, forced %x", dst, x(src), st, fb)
+	}
+	if alt != nil { // whitespace runs of any length: dropped in front, one space elsewhere
+		h.Stat("norm.long.whitespaceRunChecked", 1)
+		if fbAlt := format.ForceValidStringValueBytes(clone(alt)); !bytes.Equal(fb, fbAlt) {
+			h.Viol("force-whitespace-run-length", "ForceValidStringValueBytes(%s) = %x, with single spaces instead of the runs (%s) %x",
+				x(src), fb, x(alt), fbAlt)
+		}
+		if fsAlt := format.ForceValidStringValue(string(alt)); fs != fsAlt {
+			h.Viol("force-whitespace-run-length", "ForceValidStringValue(%s) = %x, with single spaces instead of the runs (%s) %x",
+				x(src), fs, x(alt), fsAlt)
+		}
 	}
 	return slow || len(src) >= format.MaxStringLen-2 && len(src) <= format.MaxStringLen+2
 }
@@ -279,8 +427,14 @@ func doInPlace(r *verifx.Rng, src []byte, want []byte) {
 	b := full[:len(src):len(full)]
 	res := format.ForceValidStringValueBytes(b)
 	alias := unsafe.SliceData(res) == unsafe.SliceData(full)
-	h.Op("ip %d %s", len(full), verifx.Hex(src))
-	h.Obs("ip=%s mem=%s alias=%d", verifx.Hex(res), verifx.Hex(full), b2i(alias))
+	// the array-level model re-reads the shared array at every step (quadratic): replayed on it for every input up to
+	// 1 KB and a sample of those up to 4 KB; the oracle below judges the real in-place call for every length
+	if len(full) <= 1024 || len(full) <= 4096 && r.Chance(1, 8) {
+		h.Op("ip %d %s", len(full), verifx.Hex(src))
+		h.Obs("ip=%s mem=%s alias=%d", verifx.Hex(res), verifx.Hex(full), b2i(alias))
+	} else {
+		h.Stat("inplace.oracleOnlyLongInput", 1)
+	}
 	if len(res) > len(src) {
 		h.Stat("inplace.outputLongerThanInput", 1)
 	}
@@ -288,10 +442,10 @@ func doInPlace(r *verifx.Rng, src []byte, want []byte) {
 		h.Stat("inplace.reallocated", 1)
 	}
 	if !bytes.Equal(res, want) {
-		h.Viol("inplace-differs", "ForceValidStringValueBytes on cap %d gives %x, on a roomy copy %x (input %x)", len(full), res, want, src)
+		h.Viol("inplace-differs", "ForceValidStringValueBytes on cap %d gives %x, on a roomy copy %x (input %s)", len(full), res, want, x(src))
 	}
 	if st, err := format.AppendValidStringValue(nil, src); err == nil && !bytes.Equal(res, st) {
-		h.Viol("inplace-differs-from-strict", "in place %x, AppendValidStringValue(nil, %x) = %x", res, src, st)
+		h.Viol("inplace-differs-from-strict", "in place %x, AppendValidStringValue(nil, %s) = %x", res, x(src), st)
 	}
 }
 
@@ -318,20 +472,58 @@ var rawEdges = []string{"-2147483649", "-2147483648", "-2147483647", "-1", "0", 
 	"9223372036854775807", "9223372036854775808", "18446744073709551615", "18446744073709551616", "18446744073709551617",
 	"-18446744073709551615", "99999999999999999999999999", "-99999999999999999999999999", "-4294967295", "-4294967296"}
 
-func genRaw(r *verifx.Rng) (string, string) {
-	num := func() *big.Int {
-		switch r.Pick(5, 3, 2, 2) {
-		case 0:
-			v, _ := new(big.Int).SetString(rawEdges[r.Intn(len(rawEdges))], 10)
-			return v.Add(v, big.NewInt(int64(r.Range(-2, 2))))
-		case 1:
-			return big.NewInt(int64(int32(r.U64())))
-		case 2:
-			return new(big.Int).SetUint64(r.U64())
-		default:
-			return big.NewInt(int64(r.U64()))
-		}
+// genRaw returns the spelling, the generator class and, for spellings with a long run of leading zeros, the same
+// number without the run (alt, "" when there is none): zeros in front of the digits never change a decimal integer
+func genRaw(r *verifx.Rng) (string, string, string) {
+	if r.Chance(1, 40) {
+		return genRawLong(r)
 	}
+	s, kind := genRawBase(r)
+	return s, kind, ""
+}
+
+func rawNum(r *verifx.Rng) *big.Int {
+	switch r.Pick(5, 3, 2, 2) {
+	case 0:
+		v, _ := new(big.Int).SetString(rawEdges[r.Intn(len(rawEdges))], 10)
+		return v.Add(v, big.NewInt(int64(r.Range(-2, 2))))
+	case 1:
+		return big.NewInt(int64(int32(r.U64())))
+	case 2:
+		return new(big.Int).SetUint64(r.U64())
+	default:
+		return big.NewInt(int64(r.U64()))
+	}
+}
+
+// genRawLong: spellings of any length (log-uniform, see logLen). A decimal integer stays in range however long its
+// spelling is only through leading zeros; everything else that is long must be rejected.
+func genRawLong(r *verifx.Rng) (string, string, string) {
+	n := logLen(r, maxRun(r))
+	sign := []string{"", "", "", "-", "-", "-", "+"}[r.Intn(7)]
+	switch r.Pick(6, 2, 2, 2) {
+	case 0: // a number near a boundary / random, behind a run of zeros
+		v := rawNum(r)
+		d := v.Abs(v).String()
+		return sign + strings.Repeat("0", n) + d, "long-zeros", sign + d
+	case 1: // nothing but zeros
+		return sign + strings.Repeat("0", n), "long-zeros", sign + "0"
+	case 2: // long digit strings: out of range unless they start with enough zeros
+		b := make([]byte, n)
+		for i := range b {
+			b[i] = byte('0' + r.Intn(10))
+		}
+		return sign + string(b), "long-digits", ""
+	default: // a long spelling with one foreign byte somewhere
+		b := []byte(strings.Repeat("0", n) + rawNum(r).String())
+		foreign := []byte{'-', '+', ' ', '_', 'x', '.', 'e', 0, '\n', '/', ':', 0xD9}
+		b[r.Intn(len(b))] = foreign[r.Intn(len(foreign))]
+		return sign + string(b), "long-malformed", ""
+	}
+}
+
+func genRawBase(r *verifx.Rng) (string, string) {
+	num := func() *big.Int { return rawNum(r) }
 	switch r.Pick(8, 3, 3, 2, 3, 1) {
 	case 0:
 		return num().String(), "plain"
@@ -405,8 +597,16 @@ func decimal(s string) (v *big.Int, sign byte, ok bool) {
 	return v, sign, true
 }
 
+// q renders a spelling for oracle messages (in full when short)
+func q(s string) string {
+	if len(s) <= 160 {
+		return fmt.Sprintf("%q", s)
+	}
+	return fmt.Sprintf("%q…(%d bytes)…%q", s[:48], len(s), s[len(s)-48:])
+}
+
 func doRaw(r *verifx.Rng) bool {
-	s, kind := genRaw(r)
+	s, kind, alt := genRaw(r)
 	v32, ok32 := format.ContainsRawTagValueBytes([]byte(s))
 	lo, hi, ok64 := format.ContainsRawTagValue64Bytes([]byte(s))
 	h.Op("raw %s", verifx.Hex([]byte(s)))
@@ -419,6 +619,20 @@ func doRaw(r *verifx.Rng) bool {
 	}
 	h.Obs("r32=%s r64=%s", o32, o64)
 	h.Stat("raw.kind."+kind, 1)
+	h.Stat("raw.len."+lenBucket(len(s)), 1)
+	if alt != "" { // leading zeros of any length are irrelevant: same answer as for the spelling without them
+		h.Stat("raw.long.leadingZerosChecked", 1)
+		a32, aok32 := format.ContainsRawTagValueBytes([]byte(alt))
+		alo, ahi, aok64 := format.ContainsRawTagValue64Bytes([]byte(alt))
+		if ok32 != aok32 || ok32 && v32 != a32 {
+			h.Viol("raw32-leading-zeros", "ContainsRawTagValueBytes(%s) = %d,%v but %q (without the %d leading zeros) gives %d,%v",
+				q(s), v32, ok32, alt, len(s)-len(alt), a32, aok32)
+		}
+		if ok64 != aok64 || ok64 && (lo != alo || hi != ahi) {
+			h.Viol("raw64-leading-zeros", "ContainsRawTagValue64Bytes(%s) = %d:%d,%v but %q (without the %d leading zeros) gives %d:%d,%v",
+				q(s), lo, hi, ok64, alt, len(s)-len(alt), alo, ahi, aok64)
+		}
+	}
 	if ok32 {
 		h.Stat("raw.accept32", 1)
 	}
@@ -430,26 +644,26 @@ func doRaw(r *verifx.Rng) bool {
 	near := false
 	want32 := isDec && v.Cmp(min32) >= 0 && v.Cmp(max32) <= 0
 	if ok32 != want32 {
-		h.Viol("raw32-accept-set", "ContainsRawTagValueBytes(%q) ok=%v, decimal in [-2^31, 2^32-1]: %v", s, ok32, want32)
+		h.Viol("raw32-accept-set", "ContainsRawTagValueBytes(%s) ok=%v, decimal in [-2^31, 2^32-1]: %v", q(s), ok32, want32)
 	}
 	if ok32 && isDec {
 		pat := new(big.Int).And(new(big.Int).Add(v, two32), mask32) // v mod 2^32
 		if uint64(uint32(v32)) != pat.Uint64() {
-			h.Viol("raw32-bit-pattern", "ContainsRawTagValueBytes(%q) = %d, pattern %d expected", s, v32, pat)
+			h.Viol("raw32-bit-pattern", "ContainsRawTagValueBytes(%s) = %d, pattern %d expected", q(s), v32, pat)
 		}
 		// decodes back: negative numbers through the signed reading, numbers >= 0 through the unsigned reading
 		if v.Sign() < 0 && int64(v32) != v.Int64() || v.Sign() >= 0 && uint64(uint32(v32)) != v.Uint64() {
-			h.Viol("raw32-roundtrip", "%q stored as %d does not read back", s, v32)
+			h.Viol("raw32-roundtrip", "%s stored as %d does not read back", q(s), v32)
 		}
 	}
 	if isDec && sign != '+' { // ParseUint takes no '+': the 64-bit parser's treatment of an explicit plus is not judged
 		want64 := v.Cmp(min64) >= 0 && v.Cmp(max64) <= 0
 		if ok64 != want64 {
-			h.Viol("raw64-accept-set", "ContainsRawTagValue64Bytes(%q) ok=%v, decimal in [-2^63, 2^64-1]: %v", s, ok64, want64)
+			h.Viol("raw64-accept-set", "ContainsRawTagValue64Bytes(%s) ok=%v, decimal in [-2^63, 2^64-1]: %v", q(s), ok64, want64)
 		}
 	}
 	if !isDec && ok64 {
-		h.Viol("raw64-accept-set", "ContainsRawTagValue64Bytes(%q) accepted a non-decimal", s)
+		h.Viol("raw64-accept-set", "ContainsRawTagValue64Bytes(%s) accepted a non-decimal", q(s))
 	}
 	if isDec && sign == '+' {
 		h.Stat("raw.plusSign", 1)
@@ -461,10 +675,10 @@ func doRaw(r *verifx.Rng) bool {
 		got := uint64(uint32(lo)) | uint64(uint32(hi))<<32
 		pat := new(big.Int).Mod(new(big.Int).Add(v, two64), two64)
 		if got != pat.Uint64() {
-			h.Viol("raw64-bit-pattern", "ContainsRawTagValue64Bytes(%q) = %d:%d, pattern %d expected", s, lo, hi, pat)
+			h.Viol("raw64-bit-pattern", "ContainsRawTagValue64Bytes(%s) = %d:%d, pattern %d expected", q(s), lo, hi, pat)
 		}
 		if v.Sign() < 0 && int64(got) != v.Int64() || v.Sign() >= 0 && got != v.Uint64() {
-			h.Viol("raw64-roundtrip", "%q stored as %d:%d does not read back", s, lo, hi)
+			h.Viol("raw64-roundtrip", "%s stored as %d:%d does not read back", q(s), lo, hi)
 		}
 	}
 	if isDec {
